@@ -70,4 +70,22 @@ SkipExactly ==
 Bounded == \A t \in Tasks : Len(stack[t]) <= 8 * (Len(prog.fn) + Len(prog.con) + 2)
 \* when a task is back in its driver, nothing is suspended for it
 Rearmed == \A t \in Tasks : (status[t] # "idle" /\ busy # t /\ Len(stack[t]) <= 1) => View(t) = {}
+
+(* ---- C12 ---- *)
+\* what the caller of a script-free plain function must get, whatever else is in flight
+RefOutcomeFn(f, a) ==
+  IF ~EffPre(f, a) THEN ErrorOf(PreCulprit(f, a))
+  ELSE IF FN(f).out[a + 1].k = "raise" THEN FN(f).out[a + 1]
+  ELSE IF ~EffPost(f, a) THEN ErrorOf(FirstFalsy(FN(f).post, a))
+  ELSE FN(f).out[a + 1]
+ScriptFree(f) == FN(f).script = <<>> /\ \A c \in ConsOfFn(f) : CON(c).script = <<>> /\ CON(c).escript = <<>>
+                                    /\ CON(c).rv = "bool" /\ CON(c).err # "badfactory"
+\* argument of the call the driver of task t made last
+LastArg(t) == prog.drv[t][stack[t][1].pos - 1].a
+\* the verdict of a call depends only on the call: checked where the driver of a task gets the outcome
+VerdictIndependent ==
+  (emit.e = "ret" /\ emit.ph = "drv" /\ Clean /\ FN(emit.id).cls = 0 /\ FN(emit.id).chain = <<"chk">> /\ ScriptFree(emit.id)) =>
+     LET ref == RefOutcomeFn(emit.id, LastArg(emit.t)) IN
+       /\ emit.v = ref.v
+       /\ emit.cls = IF ref.k = "ret" THEN "ret" ELSE ref.cls
 =============================================================================
